@@ -195,6 +195,9 @@ func genRef(r *core.RNG, in *Input) string {
 
 // one declaration, as a snippet
 func genDeclSnip(r *core.RNG, c *ctr, in *Input) Snip {
+	if r.Chance(9) { // a lazily evaluated sequence with nested Render calls
+		return genLazySnip(r, c)
+	}
 	switch k := r.Intn(20); {
 	case k < 11:
 		return block(c.text(core.Pick(r, declTexts)))
@@ -224,6 +227,71 @@ func genDeclSnip(r *core.RNG, c *ctr, in *Input) Snip {
 	default:
 		return Snip{K: core.Pick(r, []string{"nil", "block", "t", "sprintf"})} // nil / IsNil snippets: nothing is written
 	}
+}
+
+// ---- nested Render calls ----
+//
+// A snippet may call c.Render while it is being iterated: a lazily evaluated sequence emits a declaration, creates the
+// shared helper it needs the moment it first needs it (a nested Render on the same Context), and goes on.  The clause
+// "contains the declarations the generator rendered, in order" covers every text handed to the writer, in the order it
+// was produced - whatever the outer snippet produced before the nested call included.
+
+var helperTexts = []string{
+	"func helper%d(v any) any { return v }\n",
+	"func register%d(v any) any {\n\treturn v\n}\n\n",
+	"var registry%d = map[string]any{}\n",
+	"type helperT%d struct{ n int }\n",
+	"// helper%d is shared.\nfunc helper%d() {}\n",
+	"const helperK%d = 1\n",
+}
+
+var plainDecls = []string{
+	"func (A) Kind%d() string { return \"A\" }\n",
+	"var _ = any(A{}) // reg %d\n",
+	"func m%d() {}\n\n",
+	"type t%d int\n",
+	"var v%d = []int{1, 2,\n3}\n",
+	"// Doc%d.\nfunc Doc%d() {}\n",
+	"const c%d = 2\n",
+}
+
+// lazySnip: nBefore declarations, a nested Render of nInner helper declarations (with a once-key: only the first time
+// the key is met), nAfter declarations; depth 2: the nested snippet is itself such a sequence
+func lazySnip(c *ctr, form, key string, nBefore, nInner, nAfter, depth int, pick func([]string) string) Snip {
+	s := Snip{K: "lazy", A: []string{form}}
+	for i := 0; i < nBefore; i++ {
+		s.Sub = append(s.Sub, block(c.text(pick(plainDecls))))
+	}
+	rm := Snip{K: "render", A: []string{key}}
+	for i := 0; i < nInner; i++ {
+		if depth > 1 && i == 0 {
+			rm.Sub = append(rm.Sub, lazySnip(c, form, "", 1, 1, 1, depth-1, pick))
+		} else {
+			rm.Sub = append(rm.Sub, block(c.text(pick(helperTexts))))
+		}
+	}
+	s.Sub = append(s.Sub, rm)
+	for i := 0; i < nAfter; i++ {
+		s.Sub = append(s.Sub, block(c.text(pick(plainDecls))))
+	}
+	return s
+}
+
+func genLazySnip(r *core.RNG, c *ctr) Snip {
+	depth := 1
+	if r.Chance(20) {
+		depth = 2
+	}
+	s := lazySnip(c, core.Pick(r, []string{"snippets", "func"}), core.Pick(r, []string{"", "", "h1", "h1", "h2"}),
+		r.Intn(3), 1+r.Intn(2), r.Intn(3), depth, func(l []string) string { return core.Pick(r, l) })
+	if r.Chance(25) { // a second nested call further on in the same sequence
+		s.Sub = append(s.Sub, Snip{K: "render", A: []string{core.Pick(r, []string{"", "h1", "h3"})}, Sub: []Snip{block(c.text(core.Pick(r, helperTexts)))}},
+			block(c.text(core.Pick(r, plainDecls))))
+	}
+	if r.Chance(15) { // comments and directives as members
+		s.Sub = append([]Snip{{K: "comment", S: []byte(c.text("lazy%d starts here"))}, block("\n")}, s.Sub...)
+	}
+	return s
 }
 
 func genModule(r *core.RNG) Input {
@@ -377,6 +445,29 @@ func fixedCases() []Input {
 		one("x", nil, block("var before = 1\n"), block(longLineDecl("comment_line", 65536, "ab ", &ctr{})), block("var after = 2\n")),
 		one("x", nil, block("type Before int\n"), block(longLineDecl("byte_slice", 4097, "", &ctr{})), block("type After int\n")),
 		one("x", nil, block(longLineDecl("raw_string_line", 200000, "0123456789", &ctr{})), block("func After() {}\n")),
+		// nested Render calls from inside a snippet's iteration (see lazySnip): a method per type, the shared helper created
+		// by a nested c.Render the first time it is needed, the registration; both forms; every time / once; depth 2; defer
+		func() Input {
+			in := one("x", nil)
+			in.Types = []string{"A", "B"}
+			per := func(t string) Snip {
+				return Snip{K: "lazy", A: []string{"snippets"}, Sub: []Snip{
+					block("func (" + t + ") Kind() string { return \"" + t + "\" }\n"),
+					{K: "render", A: []string{"registerKind"}, Sub: []Snip{block("func registerKind(v any) any { return v }\n")}},
+					block("var _ = registerKind(" + t + "{})\n")}}
+			}
+			in.Gens = []Gen{{Name: "kind", Calls: [][]Snip{{per("A")}, {per("B")}}}}
+			return in
+		}(),
+		one("x", nil, block("func First() {}\n"), lazySnip(&ctr{n: 10}, "func", "", 2, 2, 1, 1, func(l []string) string { return l[0] }), block("func Last() {}\n")),
+		one("x", nil, lazySnip(&ctr{n: 20}, "snippets", "", 1, 2, 1, 2, func(l []string) string { return l[1] })),
+		func() Input {
+			c := &ctr{n: 30}
+			first := func(l []string) string { return l[0] }
+			in := one("x", nil, lazySnip(c, "func", "h", 1, 1, 1, 1, first), lazySnip(c, "snippets", "h", 1, 1, 1, 1, first))
+			in.Gens[0].Defer = []Snip{lazySnip(c, "snippets", "h", 0, 1, 1, 1, first), lazySnip(c, "func", "d", 1, 1, 0, 1, first)}
+			return in
+		}(),
 		// ONE Execute over packages of TWO modules (the second reached through require + replace): every file is
 		// formatted for the module IT lies in.  Second module dot-less (its own packages are grouped apart from std,
 		// in the first module's file they look like std) sorting after / before the first; second module with an
@@ -489,6 +580,45 @@ func (prop) Shrink(raw json.RawMessage) []json.RawMessage {
 			l := c.Gens[gi].Defer
 			c.Gens[gi].Defer = append(l[:si:si], l[si+1:]...)
 			out = append(out, mkInput(c))
+		}
+	}
+	// a lazy snippet: drop a member; drop one snippet of a nested Render; nested calls every time instead of once
+	for gi := range in.Gens {
+		for ci := range in.Gens[gi].Calls {
+			for si, s := range in.Gens[gi].Calls[ci] {
+				if s.K != "lazy" {
+					continue
+				}
+				for mi, m := range s.Sub {
+					if len(s.Sub) > 1 {
+						c := clone()
+						l := c.Gens[gi].Calls[ci][si].Sub
+						c.Gens[gi].Calls[ci][si].Sub = append(l[:mi:mi], l[mi+1:]...)
+						out = append(out, mkInput(c))
+					}
+					if m.K != "render" {
+						continue
+					}
+					if len(m.A) > 0 && m.A[0] != "" {
+						c := clone()
+						c.Gens[gi].Calls[ci][si].Sub[mi].A = []string{""}
+						out = append(out, mkInput(c))
+					}
+					for xi := range m.Sub {
+						if len(m.Sub) > 1 {
+							c := clone()
+							l := c.Gens[gi].Calls[ci][si].Sub[mi].Sub
+							c.Gens[gi].Calls[ci][si].Sub[mi].Sub = append(l[:xi:xi], l[xi+1:]...)
+							out = append(out, mkInput(c))
+						}
+						if m.Sub[xi].K == "lazy" { // depth 2 -> depth 1
+							c := clone()
+							c.Gens[gi].Calls[ci][si].Sub[mi].Sub[xi] = block("func inner() {}\n")
+							out = append(out, mkInput(c))
+						}
+					}
+				}
+			}
 		}
 	}
 	// one module only
